@@ -69,7 +69,7 @@ def write_corpus(c):
 
 
 # ------------------------------------------------------------------------------------------------ one builder run
-def run_builder(hb, c, idl_dir, mode, threads, tag, timeout=120):
+def run_builder(hb, c, idl_dir, mode, threads, tag, timeout=900):
     out = os.path.join(WORK, "out", "%s_%s_%s" % (c["name"], mode, tag))
     shutil.rmtree(out, ignore_errors=True)
     os.makedirs(out)
